@@ -194,18 +194,25 @@ def run_burst(case, chooser):
         spy.fail_from, spy.fail_op = 1, case["op"]
         chooser.active = True
         n = case["n"]
-        lines = [case["cmd"].format(i=i) for i in range(n)] + ["PWD"]
+        last = case.get("last", "PWD")
+        if case.get("suspend"):
+            # the failing operation first waits for an executor job (a file system that takes its time to fail)
+            spy.op_job = {case["op"]}
+            spy.job_first = True
+        lines = [case["cmd"].format(i=i) for i in range(n)] + [last]
         s0 = rig.sessions[0]
         s0.send(("\r\n".join(lines) + "\r\n").encode())
         w.settle()
         chooser.active = False
         codes = [c for c, _ in s0.ctl.take_replies()]
-        if sorted(codes) != sorted(["451"] * n + ["257"]):
-            problems.append({"kind": "pipelined-failures-not-all-answered", "codes": codes, "expected": ["451"] * n + ["257"]})
+        want = ["451"] * n + [{"PWD": "257", "QUIT": "221"}[last]]
+        if sorted(codes) != sorted(want) or (last == "QUIT" and codes[-1:] != ["221"]):
+            problems.append({"kind": "pipelined-failures-not-all-answered", "codes": codes, "expected": want})
         spy.fail_from = None
-        r = rig.ev(0, "PWD")
-        if [c for c, _ in (r or [])] != ["257"]:
-            problems.append({"kind": "followup-pwd", "codes": [c for c, _ in (r or [])]})
+        if last != "QUIT":
+            r = rig.ev(0, "PWD")
+            if [c for c, _ in (r or [])] != ["257"]:
+                problems.append({"kind": "followup-pwd", "codes": [c for c, _ in (r or [])]})
         r = rig.ev(1, "PWD")
         if [c for c, _ in (r or [])] != ["257"]:
             problems.append({"kind": "other-session-disturbed", "codes": [c for c, _ in (r or [])]})
@@ -312,6 +319,12 @@ def build_items(tier):
             for n in (1, 2, 3, 6):
                 items.append(({"mode": "burst", "script": "burst", "backend": backend, "cmd": cmd, "op": op, "n": n},
                               1, ["done", "early"]))
+            # ... followed by QUIT instead of PWD, the failing call suspended in the backend meanwhile: every command
+            # before the QUIT is answered before the 221
+            if backend == "memory" and op in ("exists", "is_file", "stat"):
+                for n in (1, 2):
+                    items.append(({"mode": "burst", "script": "burst", "backend": backend, "cmd": cmd, "op": op, "n": n,
+                                   "last": "QUIT", "suspend": True}, 1, ["done", "early", "order"]))
     return items
 
 
